@@ -280,6 +280,15 @@ func runC09(r *Run) {
 			*dctx = crDone
 			r.S.Kick()
 		})
+		// CloseRead is idempotent: the context a second call returns is the
+		// connection's too and has to be cancelled just the same
+		dctx2 := track("closeread-ctx-of-second-call")
+		ctx2 := c.CloseRead(bg)
+		r.S.Go("crwatch2", func() {
+			<-ctx2.Done()
+			*dctx2 = r.S.Now()
+			r.S.Kick()
+		})
 	case 5:
 		d := track("writer")
 		r.S.Go("writer", func() {
@@ -527,7 +536,7 @@ func runC09(r *Run) {
 			}
 		}
 		for _, name := range sortedKeys(rets) {
-			if name == "closeread-ctx" {
+			if name == "closeread-ctx" || name == "closeread-ctx-of-second-call" {
 				continue
 			}
 			at := *rets[name]
@@ -550,6 +559,8 @@ func runC09(r *Run) {
 			r.Violate("closeread-ctx-late", sig, "connection closed at %v, CloseRead context still not cancelled at %v", closedAt, r.S.Now())
 		} else if crDone > closedAt+time.Second {
 			r.Violate("closeread-ctx-late", sig, "connection closed at %v, CloseRead context cancelled %v later", closedAt, crDone-closedAt)
+		} else if d2 := *rets["closeread-ctx-of-second-call"]; d2 == never || d2 > closedAt+time.Second {
+			r.Violate("closeread-ctx-late", sig+",second-call", "connection closed at %v, the context returned by a second CloseRead call was not cancelled within a second (%v)", closedAt, d2)
 		}
 	}
 }
